@@ -1,5 +1,6 @@
 (* C04 -- speech voices every operand (assembly layer of replace_array_string).  Statements only. *)
 From MC Require Import Lib.Base Model.SpeechAsm Gen.SpeechTexts Proofs.SpeechAsmP Proofs.SpeechTextsP.
+From MC Require Import Model.RuleAst Proofs.RuleAstP Model.RuleTable Proofs.RuleTableP Gen.RuleSets Proofs.RuleSetsP.
 Local Open Scope N_scope.
 
 (* For ANY list of replacement strings: if in each string the text before the optional indicator and the optional word
@@ -25,3 +26,65 @@ Print Assumptions optional_words_have_no_digits.
 Theorem cleanup_keeps_operands : forall s, filter plain_char (cleanup s) = filter plain_char s.
 Proof. exact L_cleanup_keeps_text. Qed.
 Print Assumptions cleanup_keeps_operands.
+
+(* ------------------------------------------------------------------------------------------------------------------
+   The rule engine (match_pattern / find_match, SpeechPattern::build, the evaluation of replacements): models
+   Model/RuleTable.v and Model/RuleAst.v, tied to the engine's own trace by Tie/RuleEvalTie.v.  XPath is not modelled:
+   every statement holds for every outcome of every match, condition and node selection.
+   ------------------------------------------------------------------------------------------------------------------ *)
+
+(* for EVERY shipped intent / speech / overview / braille rule set (regenerated from the rule files on every run) and
+   every element: a rule is found, whatever the other matches evaluate to -- "No match found" cannot happen *)
+Theorem matching_is_total : forall path rs dots, In (path, rs, dots) shipped_rule_sets ->
+  forall tag os,
+  (forall n r, nth_error (candidates (build rs) tag) n = Some r -> In (r_id r) dots -> nth n os false = true) ->
+  first_hit (candidates (build rs) tag) os <> None.
+Proof. exact L_matching_is_total. Qed.
+Print Assumptions matching_is_total.
+
+(* the rule applied is the first candidate whose match holds; every candidate before it was tried and failed *)
+Theorem first_match_wins : forall cs os c, first_hit cs os = Some c ->
+  exists pre post, cs = pre ++ c :: post /\ tried cs os = pre ++ [c] /\
+                   firstn (List.length pre) os = repeat false (List.length pre) /\ nth (List.length pre) os false = true.
+Proof. exact L_first_match_wins. Qed.
+Print Assumptions first_match_wins.
+
+(* for EVERY list of rules read: under one tag no two rules have the same name; the definition read last is the one
+   in force, an earlier one of the same name is gone, and the redefinition stands where the first one stood *)
+Theorem names_unique_under_a_tag : forall rs g, NoDup (map r_name (get (build rs) g)).
+Proof. exact L_names_unique_under_a_tag. Qed.
+Print Assumptions names_unique_under_a_tag.
+
+Theorem last_definition_is_in_force : forall pre r post,
+  Forall (fun r' => r_tag r' <> r_tag r \/ r_name r' <> r_name r) post ->
+  In r (get (build (pre ++ r :: post)) (r_tag r)) /\
+  (forall r0, In r0 (get (build (pre ++ r :: post)) (r_tag r)) -> r_name r0 = r_name r -> r0 = r).
+Proof. exact L_last_definition. Qed.
+Print Assumptions last_definition_is_in_force.
+
+Theorem redefinition_keeps_the_place : forall r r0 a b, r_name r0 = r_name r -> ~ In (r_name r) (map r_name a) ->
+  put r (a ++ r0 :: b) = a ++ r :: b.
+Proof. exact L_redefinition_keeps_the_place. Qed.
+Print Assumptions redefinition_keeps_the_place.
+
+(* for EVERY replacement and every stream of outcomes: the items of a list are evaluated in order, each on the outcomes
+   the previous ones left; a test gives the part of the first entry that decides (the then part of the first entry whose
+   condition holds, or the else part of an entry before it); an insert over k nodes hands each of the k nodes to the
+   rules.  No item of the chosen path is skipped. *)
+Theorem items_are_evaluated_in_order : forall a b s,
+  tr_items (app_items a b) s =
+  (fst (tr_items a s) ++ fst (tr_items b (snd (tr_items a s))), snd (tr_items b (snd (tr_items a s)))).
+Proof. exact L_items_in_order. Qed.
+Print Assumptions items_are_evaluated_in_order.
+
+Theorem test_gives_first_deciding_part : forall es s,
+  snd (tr_entries es s) = snd (tr_part (match decide es s with Some p => p | None => PNone end) (drop (visited es s) s)) /\
+  exists pre, fst (tr_entries es s) = pre ++ fst (tr_part (match decide es s with Some p => p | None => PNone end) (drop (visited es s) s)) /\
+              Forall (fun x => x = ev_entry \/ x = ev_true) pre.
+Proof. exact L_test_gives_first_deciding_part. Qed.
+Print Assumptions test_gives_first_deciding_part.
+
+Theorem insert_selects_every_node : forall body k s, k <> 0%N -> (forall s', selections (fst (tr_items body s')) = O) ->
+  selections (fst (tr_item (IInsert body) (k :: s))) = N.to_nat k.
+Proof. exact L_insert_selects_every_node. Qed.
+Print Assumptions insert_selects_every_node.
